@@ -168,12 +168,128 @@ def _normalise_calls(d):
     return d
 
 
+PAYLOAD_ADT = "environment::payload::Payload"
+
+
+def _normalise_payload(d):
+    """(5) the control requests are variants of `Payload` itself in the pinned tree (`Payload::Stop`, `Payload::Restart`).
+    When they are grouped in a fieldless enum of their own that one variant carries (`Payload::Signal(Signal::Stop)`), the
+    facts are presented in the pinned vocabulary: the carrier variant is replaced by the variants of the carried enum in the
+    type table; building `Payload::Signal(<literal Signal::X>)` is building `Payload::X`; a match that looks at the carrier
+    variant and then, first thing, at the carried enum is one match on the flattened variants; a nullary crate function that
+    returns such a literal (`const fn Payload::stop()`) is that literal at its call sites."""
+    adts = {a["def"]: a for a in d.get("adts", [])}
+    pay = adts.get(PAYLOAD_ADT)
+    if not pay:
+        return d
+    carriers = {}
+    for v in pay["variants"]:
+        if len(v["fields"]) == 1:
+            e = adts.get(v["fields"][0]["ty"])
+            if e and len(e["variants"]) >= 2 and all(not ev["fields"] for ev in e["variants"]) and not ({ev["name"] for ev in e["variants"]} & {pv["name"] for pv in pay["variants"]}):
+                carriers[v["name"]] = e
+    if not carriers:
+        return d
+    pay["variants"] = [v for v in pay["variants"] if v["name"] not in carriers] + [dict(ev) for e in carriers.values() for ev in e["variants"]]
+    carried = {e["def"]: vn for vn, e in carriers.items()}
+    ctor_fns = {}
+    for f in d.get("fns", []):
+        for stage in ("pre", "post"):
+            body = f.get(stage)
+            if not body:
+                continue
+            blocks = body["blocks"]
+            # literals
+            for blk in blocks:
+                for st in blk["s"]:
+                    r = st.get("r") or {}
+                    if st.get("k") == "assign" and r.get("k") == "agg" and r.get("def") == PAYLOAD_ADT and r.get("variant") in carriers and len(r.get("ops", [])) == 1:
+                        op = r["ops"][0]
+                        lit = None
+                        if op.get("k") in ("move", "copy") and len(op["p"]) == 1:
+                            defs = [s2 for b2 in blocks for s2 in b2["s"] if s2.get("k") == "assign" and s2.get("p") == op["p"]]
+                            if len(defs) == 1 and defs[0]["r"].get("k") == "agg" and defs[0]["r"].get("def") in carried and not defs[0]["r"].get("ops"):
+                                lit = defs[0]["r"]["variant"]
+                        if lit is not None:
+                            r["variant"] = lit
+                            r["fields"] = []
+                            r["ops"] = []
+            # matches: carrier arm -> block that does nothing but look at the carried enum
+            for blk in blocks:
+                t = blk["t"]
+                if t.get("k") != "switch" or not blk["s"]:
+                    continue
+                last = blk["s"][-1]
+                r = last.get("r") or {}
+                if not (last.get("k") == "assign" and r.get("k") == "discr" and r.get("adt") == PAYLOAD_ADT and t.get("o", {}).get("p") == last.get("p")):
+                    continue
+                new_targets = []
+                variants = dict(r.get("variants", {}))
+                changed = False
+                for val, tgt in t["targets"]:
+                    vn = variants.get(val)
+                    inner = blocks[tgt] if vn in carriers and tgt < len(blocks) else None
+                    ok = False
+                    if inner is not None and len(inner["s"]) == 1 and inner["t"].get("k") == "switch":
+                        s0 = inner["s"][0]
+                        r0 = s0.get("r") or {}
+                        if s0.get("k") == "assign" and r0.get("k") == "discr" and r0.get("adt") in carried and inner["t"].get("o", {}).get("p") == s0.get("p") \
+                                and list(r0.get("p", [])[:len(r["p"])]) == list(r["p"]) and len(r0["p"]) == len(r["p"]) + 2:
+                            ok = True
+                            for ival, itgt in inner["t"]["targets"]:
+                                key = "%s%s" % (1000 + int(val), ival)
+                                variants[key] = r0["variants"].get(ival)
+                                new_targets.append([key, itgt])
+                            # the carried enum's remaining variants (its `otherwise`) when they are a single one
+                            rest = [k for k in r0["variants"] if k not in {iv for iv, _ in inner["t"]["targets"]}]
+                            if len(rest) == 1 and inner["t"].get("otherwise") is not None:
+                                key = "%s%s" % (1000 + int(val), rest[0])
+                                variants[key] = r0["variants"][rest[0]]
+                                new_targets.append([key, inner["t"]["otherwise"]])
+                            variants.pop(val, None)
+                            changed = True
+                    if not ok:
+                        new_targets.append([val, tgt])
+                if changed:
+                    t["targets"] = new_targets
+                    r["variants"] = variants
+            # a remaining look at the carried enum alone (not flattened above): named in the pinned vocabulary all the same
+            for blk in blocks:
+                for st in blk["s"]:
+                    r = st.get("r") or {}
+                    if st.get("k") == "assign" and r.get("k") == "discr" and r.get("adt") in carried:
+                        r["adt"] = PAYLOAD_ADT
+            if stage == "pre" and body.get("arg_count") == 0 and len(blocks) == 1 and blocks[0]["t"].get("k") == "return" and f.get("kind") in ("fn", "assoc_fn"):
+                ss = [st for st in blocks[0]["s"] if st.get("k") == "assign"]
+                fin = [st for st in ss if st.get("p") == [0]]
+                if len(fin) == 1 and fin[0]["r"].get("k") == "agg" and fin[0]["r"].get("def") == PAYLOAD_ADT and not fin[0]["r"].get("ops") and all(st["r"].get("k") == "agg" and not st["r"].get("ops") for st in ss):
+                    ctor_fns[f["def"]] = fin[0]["r"]
+    if ctor_fns:
+        for f in d.get("fns", []):
+            for stage in ("pre", "post"):
+                body = f.get(stage)
+                if not body:
+                    continue
+                for blk in body["blocks"]:
+                    t = blk["t"]
+                    if t.get("k") == "call" and (t.get("resolved") or t.get("callee")) in ctor_fns and not t.get("args") and t.get("target") is not None and t.get("dest"):
+                        lit = ctor_fns[t.get("resolved") or t.get("callee")]
+                        blk["s"].append({"k": "assign", "p": list(t["dest"]), "r": dict(lit, gargs=list(t.get("gargs") or lit.get("gargs") or [])), "l": t.get("l")})
+                        blk["t"] = {"k": "goto", "target": t["target"], "l": t.get("l")}
+        # a constructor all of whose uses were replaced by the literal it returns is gone from the picture (one that is still
+        # called somewhere, or passed on as a function value, stays and is judged like any function that builds a payload)
+        text = json.dumps([f.get("pre") for f in d.get("fns", []) if f["def"] not in ctor_fns] + [f.get("post") for f in d.get("fns", []) if f["def"] not in ctor_fns])
+        unused = {c for c in ctor_fns if json.dumps(c) not in text}
+        d["fns"] = [f for f in d["fns"] if f["def"] not in unused]
+    return d
+
+
 def load(cfg, repo="/repo"):
     key = (cfg, repo)
     if key not in _cache:
         path = extract(cfg, repo)
         with open(path) as f:
-            _cache[key] = Facts(_normalise_calls(json.loads(_normalise(f.read()))), cfg, path)
+            _cache[key] = Facts(_normalise_payload(_normalise_calls(json.loads(_normalise(f.read())))), cfg, path)
     return _cache[key]
 
 
